@@ -24,6 +24,9 @@ pub enum Input {
     Framed { ty: u8, fin: u8, size: u32, rest: Vec<u8> },
     /// prefix^k followed by a terminator, for the recursive shapes
     Nest { shape: u8, k: u32 },
+    /// a Variant array of n one-byte elements that carries an array-dimensions list (products that overflow 32 bits,
+    /// zero and negative dimensions, products that differ from n)
+    Matrix { n: u16, dims: Vec<u32>, declared_len: Option<i32> },
 }
 
 #[derive(Clone, Debug, Serialize, Deserialize)]
@@ -108,6 +111,18 @@ fn build_input(input: &Input) -> Vec<u8> {
                 }
             }
             bytes
+        }
+        Input::Matrix { n, dims, declared_len } => {
+            let n = *n as usize % 40;
+            // Byte (type id 3) | array bit | dimensions bit
+            let mut v = vec![0x03u8 | 0x80 | 0x40];
+            v.extend_from_slice(&declared_len.unwrap_or(n as i32).to_le_bytes());
+            v.extend(std::iter::repeat(7u8).take(n));
+            v.extend_from_slice(&(dims.len() as i32).to_le_bytes());
+            for d in dims {
+                v.extend_from_slice(&d.to_le_bytes());
+            }
+            v
         }
         Input::Nest { shape, k } => {
             let (prefix, tail): (&[u8], &[u8]) = match shape % 6 {
@@ -252,6 +267,13 @@ fn check(ctx: &Ctx, c: &Case) -> PResult {
             }
         }
         Input::Raw(_) => ctx.class("raw"),
+        Input::Matrix { dims, .. } => {
+            targets = vec![23, 22];
+            ctx.class("matrix_dimensions");
+            if dims.iter().fold(1u128, |a, d| a * *d as u128) > u32::MAX as u128 {
+                ctx.class("matrix_dimension_product_exceeds_u32");
+            }
+        }
         Input::Framed { .. } => {
             ctx.class("framing_shaped");
             targets = (N_BUILTIN..N_BUILTIN + N_FRAMING).collect();
@@ -319,6 +341,8 @@ fn case_strategy(max_k: u32) -> impl Strategy<Value = Case> {
         5 => (any::<bool>(), any::<u16>(), proptest::collection::vec(any::<u8>(), 0..200), proptest::collection::vec((any::<u8>(), any::<u16>(), any::<u8>()), 0..4))
             .prop_map(|(service, kind, data, muts)| Input::Mutated { service, kind, data, muts }),
         1 => (0u8..6, prop_oneof![0u32..60, 40u32..2000, (max_k / 2)..max_k]).prop_map(|(shape, k)| Input::Nest { shape, k }),
+        1 => (0u16..40, proptest::collection::vec(prop_oneof![4 => prop::sample::select(vec![0u32, 1, 2, 3, 4, 5, 8, 16, 0xffff, 0x1_0000, 0x1_0001, 0x4000_0000, 0x7fff_ffff, 0x8000_0000, 0x8000_0001, 0xffff_fffe, 0xffff_ffff]), 1 => any::<u32>()], 0..5), proptest::option::weighted(0.2, prop::sample::select(LENGTHS.to_vec())))
+            .prop_map(|(n, dims, declared_len)| Input::Matrix { n, dims, declared_len }),
     ];
     (input, any::<u16>(), proptest::bool::weighted(0.2)).prop_map(|(input, target, minimal)| Case { input, target, minimal })
 }
@@ -326,7 +350,7 @@ fn case_strategy(max_k: u32) -> impl Strategy<Value = Case> {
 pub fn def() -> PropDef {
     PropDef {
         id: "C02",
-        rule: "byte strings from three sources (raw and framing-shaped random bytes; valid encodings of generated values with bit flips / truncation / extension / rewritten length fields; nesting grammars prefix^k for Variant<->DataValue, Variant(Variant), DiagnosticInfo, arrays of variants) decoded as every built-in type, header/chunk/codec types, all SupportedMessage ids and every generated service type under default and minimal decoding options, on a 2 MiB stack with a counting allocator; non-trivial = decoder returned Ok or consumed >= 8 bytes; distinct = distinct (input, target, options)",
+        rule: "byte strings from three sources (raw and framing-shaped random bytes; valid encodings of generated values with bit flips / truncation / extension / rewritten length fields; nesting grammars prefix^k for Variant<->DataValue, Variant(Variant), DiagnosticInfo, arrays of variants; variant arrays with dimension lists whose product overflows 32 bits) decoded as every built-in type, header/chunk/codec types, all SupportedMessage ids and every generated service type under default and minimal decoding options, on a 2 MiB stack with a counting allocator; non-trivial = decoder returned Ok or consumed >= 8 bytes; distinct = distinct (input, target, options)",
         assumptions: &[
             "allocation bound: peak growth during one decode <= 8 MiB + 64 x input length and no single request > 16 MiB",
             "a nesting of k >= 4 x max depth + 4 levels must be rejected (factor 4 is slack for how levels are counted)",
